@@ -390,6 +390,11 @@ def run_strace(scn: Scenario, log: str, injects=()):
 @st.composite
 def scenarios(draw, tier, inject):
     nmax = 3
+    entry = None
+    if inject == "inproc":
+        entry = draw(st.sampled_from(["persist_changes"] * 4 + ["lint_paths"]))
+        if entry == "lint_paths" and tier == "quick":
+            nmax = 2  # a full lint per fault point: keep the quick tier cheap
     if inject == "strace" and tier == "quick":
         nfiles = draw(st.sampled_from([1, 1, 1, 2]))
     else:
@@ -414,7 +419,7 @@ def scenarios(draw, tier, inject):
     case = {"inject": inject, "files": files, "suffix": draw(st.sampled_from(SUFFIXES)),
             "cfg_encoding": cfg_encoding}
     if inject == "inproc":
-        case["entry"] = draw(st.sampled_from(["persist_changes", "persist_changes", "persist_changes", "lint_paths"]))
+        case["entry"] = entry
     else:
         case["sequences"] = True  # quick: pinned() switches it off for every other scenario (cost)
     return case
@@ -544,10 +549,10 @@ class C26(Check):
         return scenarios(tier, "inproc")
 
     def examples(self, tier):
-        return 10 if tier == "quick" else 250
+        return 8 if tier == "quick" else 250
 
     def budget_s(self, tier):
-        return 600.0 if tier == "quick" else 2400.0
+        return 1500.0 if tier == "quick" else 3000.0
 
     def finish(self, tier, merged):
         labels = merged["labels"]
